@@ -25,6 +25,9 @@ func sameVal(a, b ssa.Value) bool {
 	switch x := a.(type) {
 	case *ssa.Const:
 		y, ok := b.(*ssa.Const)
+		if ok && x.Value == nil && y.Value == nil {
+			return types.Identical(x.Type(), y.Type()) // two nil (zero) constants of one type
+		}
 		if !ok || x.Value == nil || y.Value == nil {
 			return false
 		}
@@ -1152,8 +1155,8 @@ func checkBounds(c *Ctx, rule string, fns []*ssa.Function, table map[string]stri
 				for _, in := range instrs(fn) {
 					if ld, ok := in.(*ssa.UnOp); ok {
 						if fa, isFA := ld.X.(*ssa.FieldAddr); isFA && fa.X == ssa.Value(fn.Params[0]) {
-							_, st := structOf(fa.X.Type())
-							if st != nil && st.Field(fa.Field).Name() == a.LenOfField {
+							nn, st := structOf(fa.X.Type())
+							if st != nil && fieldNameOf(nn, st, fa.Field) == a.LenOfField {
 								b.assumeLT[ltAssume{prm, ld}] = true
 							}
 						}
@@ -1187,8 +1190,8 @@ func checkBounds(c *Ctx, rule string, fns []*ssa.Function, table map[string]stri
 						for _, in := range instrs(caller) {
 							if ld, isLd := in.(*ssa.UnOp); isLd {
 								if fa, isFA := ld.X.(*ssa.FieldAddr); isFA && sameVal(fa.X, recv) {
-									_, st := structOf(fa.X.Type())
-									if st != nil && st.Field(fa.Field).Name() == a.LenOfField && cb.lt(arg, ld, ci) {
+									nn, st := structOf(fa.X.Type())
+									if st != nil && fieldNameOf(nn, st, fa.Field) == a.LenOfField && cb.lt(arg, ld, ci) {
 										ok = true
 									}
 								}
